@@ -369,6 +369,20 @@ class Facts:
         self.fns = [Fn(x) for x in self.raw['fns']]
         self.fn_by_def = {f.defpath: f for f in self.fns}
         self.adts = {a['path']: a for a in self.raw['adts']}
+        # two-variant enums isomorphic to Option<T>: {enum path: (unit variant path, payload variant path, payload field ty)}
+        from . import places as _places
+        _places.OPTION_LIKE_SOME.clear()
+        _places.OPTION_LIKE_NONE.clear()
+        self.option_like = {}
+        for pth, a in self.adts.items():
+            vs = a.get('variants', [])
+            if a.get('kind') == 'Enum' and len(vs) == 2:
+                unit = [x for x in vs if not x['fields']]
+                pay = [x for x in vs if len(x['fields']) == 1]
+                if len(unit) == 1 and len(pay) == 1:
+                    self.option_like[pth] = (pth + '::' + unit[0]['name'], pth + '::' + pay[0]['name'], pay[0]['fields'][0]['ty'])
+                    _places.OPTION_LIKE_NONE.add(canon(pth + '::' + unit[0]['name']))
+                    _places.OPTION_LIKE_SOME.add(canon(pth + '::' + pay[0]['name']))
         self.impls = self.raw['impls']
         self.statics = self.raw['statics']
         self.unsafes = self.raw['unsafes']
@@ -408,6 +422,18 @@ BUFFER_ADTS = ('std::vec::Vec', 'std::collections::VecDeque', 'std::collections:
                'std::collections::BTreeMap', 'std::collections::BTreeSet', 'std::collections::HashMap',
                'std::collections::HashSet', 'std::collections::LinkedList', 'std::string::String',
                'std::boxed::Box')
+
+
+def norm_option_like_ty(facts, ty):
+    """An option-like enum of the crate (one unit variant, one single-field variant) is read as Option<field type>."""
+    if isinstance(ty, dict) and ty.get('adt') in getattr(facts, 'option_like', {}):
+        a = facts.adts[ty['adt']]
+        pay = facts.option_like[ty['adt']][2]
+        sub = dict(zip(a.get('generics', []), ty.get('args', [])))
+        if isinstance(pay, dict) and 'param' in pay and pay['param'] in sub:
+            pay = sub[pay['param']]
+        return {'adt': 'std::option::Option', 'args': [pay]}
+    return ty
 
 
 def is_buffer_ty(ty):
@@ -481,8 +507,8 @@ def build_views(facts):
 
             def add_fields(adt, prefix, sub, depth):
                 for fld in adt['variants'][0]['fields']:
-                    ty = subst_ty(fld['ty'], sub)
-                    f = Field(prefix + fld['name'], ty, fld['ty_str'])
+                    ty = norm_option_like_ty(facts, subst_ty(fld['ty'], sub))
+                    f = Field(prefix + fld['name'], ty, fld['ty_str'] if ty.get('adt') != 'std::option::Option' or 'Option' in fld['ty_str'] else 'std::option::Option<%s>' % (ty['args'][0].get('param') or ty['args'][0].get('prim') or '?'))
                     inner = facts.adts.get(ty.get('adt')) if isinstance(ty, dict) else None
                     if ty.get('param') in v.view_params:
                         f.role = 'child'
